@@ -988,9 +988,62 @@ pub fn part_evalord(out: &mut Out, _o: &Opts) {
     }
 }
 
+/// many variables, long lists, deep nesting: sizes that small exhaustive and random inputs never reach
+pub fn part_evalwide(out: &mut Out, o: &Opts) {
+    let ns: &[usize] = if o.thorough { &[31, 32, 33, 63, 64, 65, 66, 100, 127, 128, 129, 200, 257] } else { &[32, 33, 64, 65, 70, 129] };
+    for &n in ns {
+        let v: Vec<String> = (0..n).map(|i| format!("v{i}")).collect();
+        let lits: Vec<String> = v.iter().enumerate().map(|(i, x)| if i % 5 == 2 { format!("-{x}") } else { x.clone() }).collect();
+        emit_eval(out, &lits.join(" & "), &[]);
+        emit_eval(out, &lits.join(" | "), &[]);
+        // (no xor chain here: without memoisation in the engine it is exponential in n)
+        emit_eval(out, &v[..12].join(" ^ "), &[]);
+        emit_eval(out, &format!("exists {} # {}", v[1..].join(", "), lits.join(" & ")), &[]);
+        emit_eval(out, &format!("forall {} # {}", v[..n - 1].join(", "), lits.join(" | ")), &[]);
+        emit_eval(out, &format!("({}) <=> -({})", lits.join(" & "), lits.iter().map(|l| format!("-{l}")).collect::<Vec<_>>().join(" | ")), &[]);
+        // the last variable first in the text: ids and first-appearance order differ from index order
+        let mut rev = v.clone();
+        rev.reverse();
+        emit_eval(out, &format!("({}) & ({})", rev.join(" | "), v.join(" | ")), &[]);
+        let mut nest = String::new();
+        for x in &v {
+            nest.push_str(&format!("({x} & -("));
+        }
+        nest.push_str("true");
+        for _ in &v {
+            nest.push_str("))");
+        }
+        emit_eval(out, &nest, &[]);
+    }
+    // counting over longer lists (the construction is exponential in the list length: up to 14)
+    for k in [8usize, 11, 14] {
+        let v: Vec<String> = (0..k).map(|i| format!("w{i}")).collect();
+        for op in ["<=", "<", ">=", ">", "="] {
+            emit_eval(out, &format!("[{}] {op} {}", v.join(", "), k / 2), &[]);
+        }
+        emit_eval(out, &format!("[{}] >= [{}]", v[..k / 2].join(", "), v[k / 2..].join(", ")), &[]);
+        emit_eval(out, &format!("[{}, {}] = {}", v.join(", "), v[..3].join(", "), k / 2 + 1), &[]);
+    }
+    let mut rng = Rng::new(o.seed ^ 0x77);
+    let names20: Vec<String> = (0..20).map(|i| format!("n{i}")).collect();
+    let refs: Vec<&str> = names20.iter().map(|s| s.as_str()).collect();
+    let n = if o.thorough { 20_000 } else { 1_200 };
+    let mut made = 0;
+    while made < n {
+        let f = rand_formula(&mut rng, 4, &refs);
+        // fixed points over 20 names may take long chains; keep this part fixed-point free
+        if f.contains("fp ") || f.contains("mu ") || f.contains("nu ") {
+            continue;
+        }
+        emit_eval(out, &f, &[]);
+        made += 1;
+    }
+}
+
 pub fn main(out: &mut Out, o: &Opts) {
     for p in o.parts.clone() {
         match p.as_str() {
+            "evalwide" => part_evalwide(out, o),
             "evalord" => part_evalord(out, o),
             "tok" => part_tok(out, o),
             "parse" => part_parse(out, o),
